@@ -40,18 +40,18 @@ Proof.
   unfold dhcp_is_valid. destruct (Nat.ltb_spec (len p) 240); [discriminate|]. intros _. assumption.
 Qed.
 
-Lemma encode_dhcp4_into_safe p pos :
-  (Nat.leb 300 (cap p) && Nat.leb (cap p) (240 + pos)) = false -> safe (encode_dhcp4_into p pos).
+Lemma encode_dhcp4_into_safe p pos : safe (encode_dhcp4_into p pos).
 Proof.
-  intros H. unfold encode_dhcp4_into.
+  unfold encode_dhcp4_into.
   destruct (Nat.ltb_spec (cap p) 300); [sdone|].
-  destruct (Nat.ltb_spec (240 + pos) (cap p)); [sdone|]. lia.
+  destruct (Nat.leb_spec (cap p) (240 + pos)); [sdone|].
+  rewrite idx_ok by (cbn [len]; lia). cbn [bind]. sdone.
 Qed.
 
-Theorem dhcp4_process_partial e p : wf p -> known_C08_dhcp_reply_overrun e p = false ->
+Theorem dhcp4_process_total e p : wf p ->
   forall fuel, (len p < fuel)%nat -> safe (dhcp4_process fuel e p).
 Proof.
-  intros Hw Hk fuel Hf. unfold dhcp4_process.
+  intros Hw fuel Hf. unfold dhcp4_process.
   destruct (dhcp_is_valid fuel p) as [[]|er| |] eqn:Ev; cbn [bind];
     try sdone; try (pose proof (dhcp_is_valid_total p Hw fuel Hf) as [H1 H2]; congruence).
   pose proof (dhcp_is_valid_len _ _ Ev) as Hl.
@@ -63,27 +63,19 @@ Proof.
   - apply safe_bind; [apply dhcp_parse_options_total; assumption|]. intros _ _.
     destruct (dhcp_opt p 53) as [[|mt [|x r]]|]; try sdone.
     sif; [sdone|].
-    unfold known_C08_dhcp_reply_overrun, dhcp_reply_pos in Hk.
-    unfold client_id in *. destruct (dhcp_opt p 61) as [cid|]; cbn [bind] in *.
-    + acc28 Hw. sif; [|sdone].
-      destruct (de_reply e); [sdone| |]; apply encode_dhcp4_into_safe; exact Hk.
-    + rewrite sl_ok in * by (unfold wf in Hw; lia). cbn [bind] in *. acc28 Hw. sif; [|sdone].
-      destruct (de_reply e); [sdone| |]; apply encode_dhcp4_into_safe; exact Hk.
+    unfold client_id. destruct (dhcp_opt p 61) as [cid|]; cbn [bind]; acc28 Hw;
+      (sif; [|sdone]; destruct (de_reply e); [sdone| |]; apply encode_dhcp4_into_safe).
 Qed.
 
-(* REQUEST (rebooting) with a 60-byte client identifier in a buffer of exactly its length:
-   the NAK needs 240+3+6+62+1 = 312 bytes, the request buffer has 311 *)
+(* the former witness (REQUEST with a 60-byte client identifier in a buffer of exactly its
+   length, NAK needs 312 bytes of 311): EncodeDHCP4 now returns nil *)
 Definition dhcp_nak_w : bytes :=
   [1; 1; 6; 0] ++ repeat 0 232 ++ [99; 130; 83; 99] ++ [53; 1; 3] ++ [50; 4; 192; 168; 0; 77] ++ (61 :: 60 :: repeat 7 60).
-Lemma dhcp4_refuted :
-  bytes_ok dhcp_nak_w /\
-  known_C08_dhcp_reply_overrun (mkDhcpEnv false RNak false) (of_bytes dhcp_nak_w) = true /\
-  dhcp4_process 400 (mkDhcpEnv false RNak false) (of_bytes dhcp_nak_w) = Panic.
-Proof. split; [apply bytes_okb_spec; vm_compute; reflexivity|]. split; vm_compute; reflexivity. Qed.
 Lemma dhcp4_nonvacuous :
-  known_C08_dhcp_reply_overrun (mkDhcpEnv false (ROther 33) true) (of_bytes (dhcp_sample ++ repeat 0 60)) = false /\
+  bytes_ok dhcp_nak_w /\
+  dhcp4_process 400 (mkDhcpEnv false RNak false) (of_bytes dhcp_nak_w) = Ok tt /\
   dhcp4_process 400 (mkDhcpEnv false (ROther 33) true) (of_bytes (dhcp_sample ++ repeat 0 60)) = Ok tt.
-Proof. split; vm_compute; reflexivity. Qed.
+Proof. split; [apply bytes_okb_spec; vm_compute; reflexivity|]. split; vm_compute; reflexivity. Qed.
 
 (* ---------------------------------------------------------------- ICMPv4 logger *)
 Lemma echo_fastlog_safe p : wf p -> (8 <= len p)%nat -> safe (echo_fastlog p).
